@@ -232,6 +232,12 @@ def worker(ctx, shard):
             got = _call(iv[u].range, start, stop, k)
             if got is not None and len(got) >= 2:
                 nontriv += 1
+                if rng.random() < 0.15 and isinstance(got, list):
+                    # the caller changes the list it received and asks the same question again (the second call is judged)
+                    got.reverse()
+                    got.pop()
+                    _call(iv[u].range, start, stop, k)
+                    ctx.path("range-result-mutated-then-asked-again")
         _flush(ctx, mon, "range", v0, nontriv)
     if kind == "long-range":
         rng = ctx.rng("long-range" + shard["unit"])
